@@ -95,9 +95,46 @@ func NewBackend(kind string) (nodeenrollment.Storage, func(), error) {
 			}
 		}
 		s, err := file.New(ctx, file.WithBaseDirectory(spelled))
+		if err == nil && seq%3 == 2 {
+			// this server keeps its records on another volume: after a record has been written its file is moved
+			// there and a symbolic link is left in its place (what configuration mounts and migrations produce)
+			moved := dir + "-moved"
+			if err := os.MkdirAll(moved, 0o700); err != nil {
+				return nil, nil, err
+			}
+			return &fileLinker{Storage: s, dir: dir, moved: moved}, func() { _ = os.RemoveAll(dir); _ = os.RemoveAll(moved) }, nil
+		}
 		return s, func() { _ = os.RemoveAll(dir) }, err
 	}
 	return nil, nil, fmt.Errorf("unknown backend %q", kind)
+}
+
+// fileLinker turns every record file it has stored into a symbolic link to a regular file elsewhere
+type fileLinker struct {
+	nodeenrollment.Storage
+	dir, moved string
+	n          atomic.Int64
+}
+
+func (f *fileLinker) Store(ctx context.Context, m nodeenrollment.MessageWithId) error {
+	err := f.Storage.Store(ctx, m)
+	if err != nil || nodeenrollment.IsNil(m) || m.GetId() == "" {
+		return err
+	}
+	id := m.GetId()
+	_ = filepath.WalkDir(f.dir, func(p string, d os.DirEntry, werr error) error {
+		if werr != nil || d.IsDir() || d.Name() != id || !d.Type().IsRegular() {
+			return nil
+		}
+		target := filepath.Join(f.moved, fmt.Sprintf("%d-%s", f.n.Add(1), filepath.Base(filepath.Dir(p))))
+		if os.Rename(p, target) == nil {
+			if os.Symlink(target, p) != nil {
+				_ = os.Rename(target, p)
+			}
+		}
+		return nil
+	})
+	return nil
 }
 
 // ServerCfg configures a server world
@@ -759,6 +796,8 @@ type OrderedLoader struct {
 	nodeenrollment.Storage
 	mu    sync.Mutex
 	order map[string][]string // node id -> key ids, in the order to return
+	// EmptyIsNil: an unknown node ID (or one whose records are all gone) is answered with an empty set and no error
+	EmptyIsNil bool
 }
 
 var _ nodeenrollment.NodeIdLoader = (*OrderedLoader)(nil)
@@ -796,6 +835,11 @@ func (o *OrderedLoader) LoadByNodeId(ctx context.Context, msg nodeenrollment.Mes
 		out = append(out, ni)
 	}
 	if len(out) == 0 {
+		if o.EmptyIsNil {
+			// the way a database answers: no rows, no error
+			set.Nodes = nil
+			return nil
+		}
 		return nodeenrollment.ErrNotFound
 	}
 	set.Nodes = out
